@@ -37,7 +37,7 @@ func (e *executor[R]) PreExecute(exec policy.ExecutionInternal[R]) *common.Polic
 	}
 	if e.onMiss != nil {
 		e.onMiss(failsafe.ExecutionEvent[R]{
-			ExecutionAttempt: execInternal,
+			ExecutionAttempt: execInternal.CopyWithResult(nil),
 		})
 	}
 	return nil
